@@ -1631,7 +1631,10 @@ wuffs_base__slice_u8__overlaps(wuffs_base__slice_u8 s, wuffs_base__slice_u8 t) {
 static inline wuffs_base__slice_u8  //
 wuffs_base__slice_u8__subslice_i(wuffs_base__slice_u8 s, uint64_t i) {
   if ((i <= SIZE_MAX) && (i <= s.len)) {
-    return wuffs_base__make_slice_u8(s.ptr + i, ((size_t)(s.len - i)));
+    // The (s.ptr != NULL) avoids undefined behavior (arithmetic on a NULL
+    // pointer) for an empty slice, such as wuffs_base__empty_slice_u8().
+    return wuffs_base__make_slice_u8(s.ptr ? (s.ptr + i) : NULL,
+                                     ((size_t)(s.len - i)));
   }
   return wuffs_base__empty_slice_u8();
 }
@@ -1655,7 +1658,10 @@ wuffs_base__slice_u8__subslice_ij(wuffs_base__slice_u8 s,
                                   uint64_t i,
                                   uint64_t j) {
   if ((i <= j) && (j <= SIZE_MAX) && (j <= s.len)) {
-    return wuffs_base__make_slice_u8(s.ptr + i, ((size_t)(j - i)));
+    // The (s.ptr != NULL) avoids undefined behavior (arithmetic on a NULL
+    // pointer) for an empty slice, such as wuffs_base__empty_slice_u8().
+    return wuffs_base__make_slice_u8(s.ptr ? (s.ptr + i) : NULL,
+                                     ((size_t)(j - i)));
   }
   return wuffs_base__empty_slice_u8();
 }
